@@ -1287,6 +1287,50 @@ pub fn c12_case(seed: u64, idx: u64) -> CaseOut {
             out.failures.push(fail("decompress-size-out-of-range".into(), "junk input".into()));
         }
     }
+    // call sequences: a zstd frame around a DAMAGED container makes the library fail inside the wrapper — with Err, or
+    // with an internal panic that the wrapper must catch and map to a negative status (an empty corrections field
+    // trips a hard assertion on the parameter header's version) — and the next valid call in the same process must
+    // behave as if the failed one had never happened. Only damage of the container STRUCTURE is used (truncation,
+    // version byte, chunk tag, empty corrections): damaged correction CONTENT can make the reconstruction loop
+    // (known_findings.json, observations), which C12 does not speak about.
+    if let Run::Done(Ok(c)) = guarded(|| expand_zlib_chunks(&f, 0)) {
+        let mut damaged: Vec<(&str, Vec<u8>)> = vec![("empty-corrections", vec![1, 1, 0, 0])];
+        if c.len() > 2 {
+            let cut = 1 + r.below(c.len() as u64 - 1) as usize;
+            damaged.push(("truncated", c[..cut].to_vec()));
+            let mut v = c.clone();
+            v[0] = v[0].wrapping_add(1 + r.below(254) as u8);
+            damaged.push(("version", v));
+            let mut t = c.clone();
+            t[1] = 3 + r.below(250) as u8;
+            damaged.push(("tag", t));
+        }
+        for (what, d) in damaged {
+            let frame = match zstd::bulk::compress(&d, 1) {
+                Ok(z) => z,
+                Err(_) => continue,
+            };
+            let cap = want + 1000;
+            let (rc5, rs5, g5, _) = call_decompress(&frame, cap);
+            if !g5 {
+                out.failures.push(fail("decompress-guard-damaged".into(), format!("damaged container ({what}): wrote outside the buffer")));
+            }
+            if rc5 > 0 || (rc5 == 0 && rs5 as usize > cap) {
+                out.failures.push(fail("decompress-status-positive".into(), format!("damaged container ({what}): status {rc5}, result_size {rs5}")));
+            }
+            out.tags.push(format!("damaged-{what}-rc{rc5}"));
+            let (rc6, _, g6, o6) = call_decompress(&z, want + 1);
+            if !g6 {
+                out.failures.push(fail("decompress-guard-damaged".into(), format!("valid call after a failed one ({what}): wrote outside the buffer")));
+            }
+            if lib_ok && (rc6 != 0 || o6 != f) {
+                out.failures.push(fail(
+                    "wrapper-call-after-failure".into(),
+                    format!("after WrapperDecompressZip returned {rc5} for a damaged container ({what}), the valid frame returned {rc6} ({} of {} bytes equal)", o6.iter().zip(f.iter()).take_while(|(a, b)| a == b).count(), f.len()),
+                ));
+            }
+        }
+    }
     out.nontrivial = Some(fnv64(&f));
     out.sample = Some(format!("{label}: file {}B compressed {}B", f.len(), need));
     out
